@@ -27,11 +27,11 @@ def build_native(sc, crate, release_too=False):
     return bins
 
 
-def native_pair_check(sc, bins, n, picks):
+def native_pair_check(sc, bins, n, picks, scenario="c15"):
     """Runs the real Solver::solve on the C15 scenario; returns dict profile -> RESULT line."""
     out = {}
     for prof, b in bins.items():
-        p = subprocess.run([b, "c15", str(n)] + [str(x) for x in picks], capture_output=True, text=True, timeout=600)
+        p = subprocess.run([b, scenario, str(n)] + [str(x) for x in picks], capture_output=True, text=True, timeout=600)
         m = re.search(r"^RESULT (.*)$", p.stdout, re.M)
         out[prof] = m.group(1) if m else "crash rc=%s %s" % (p.returncode, p.stderr[-300:])
     return out
@@ -89,9 +89,17 @@ def run(tier, seed, only):
             if v["q"] == "Q1":
                 r = native_pair_check(sc, bins, v["n"], [v["i"], v["j"]])
                 bad = [p for p, line in r.items() if not line.startswith("unsolvable")]
+                if not bad:
+                    # the kernel's indices are discovery positions: reveal all n candidates first, then require the two
+                    r = native_pair_check(sc, bins, v["n"], [v["i"], v["j"]], scenario="c15r")
+                    bad = [p for p, line in r.items() if not line.startswith("unsolvable")]
+                    v["witness"] = "all candidates revealed by a first requirement, then positions i and j required"
             elif v["q"] == "Q2":
                 r = native_pair_check(sc, bins, v["n"], [v["i"]])
                 bad = [p for p, line in r.items() if not line.startswith("solution a=%d" % v["i"])]
+                if not bad:
+                    r = native_pair_check(sc, bins, v["n"], [v["i"]], scenario="c15r")
+                    bad = [p for p, line in r.items() if not line.startswith("solution a=%d" % (v["n"] - 1 - v["i"]))]
             else:
                 r, bad = {}, ["dev"]   # Q3 is a direct observation of the real code's output
             native_runs += 1
@@ -207,6 +215,10 @@ def replay(path):
     log("replay n=%s picks=%s -> %s" % (v["n"], picks, r))
     expect_unsolvable = len(picks) == 2
     bad = [p for p, line in r.items() if line.startswith("unsolvable") != expect_unsolvable]
+    if not bad:
+        r = native_pair_check(sc, bins, v["n"], picks, scenario="c15r")
+        log("replay (all candidates revealed first) n=%s positions=%s -> %s" % (v["n"], picks, r))
+        bad = [p for p, line in r.items() if line.startswith("unsolvable") != expect_unsolvable]
     sc.cleanup()
     if bad:
         log("VIOLATION property=%s replay=%s" % (PROP, path))
